@@ -336,7 +336,7 @@ func TestC09(t *testing.T) {
 			defer up.Disconnect()
 		}
 		if !cl.WaitMembership(Deadline()) {
-			c.Fatalf("C09: cluster did not form")
+			Missf(c, "C09: cluster did not form")
 		}
 		if up != nil && !Eventually(Deadline(), func() bool { return n0.Srv.ClusterState().LocalEndpointListeners("e1") == 1 }) {
 			c.Harnessf("upstream registration not visible")
